@@ -224,6 +224,27 @@ def parsePrefixAux : Nat → Src → Nat → List Char
 
 def parsePrefix (s : Src) : List Char := parsePrefixAux (s.length + 1) s Gen.MAX_PREFIX_SIZE
 
+/-- the prefix `parse_prefix` would see if it skipped ignorable tokens the way the matcher's exact
+    parts do (used only to attribute optimised/unoptimised differences, finding F10) -/
+def squeezedPrefixAux : Nat → Src → Nat → List Char
+  | 0, _, _ => []
+  | _, _, 0 => []
+  | fuel + 1, s, room =>
+    match s with
+    | [] => []
+    | _ =>
+      let t := tokenAt s
+      if t.kind.isIgnorable then squeezedPrefixAux fuel (s.drop t.text.length) room
+      else if t.kind.isAllowedPattern then
+        let cs := (t.text.map lowerAscii).take room
+        cs ++ squeezedPrefixAux fuel (s.drop t.text.length) (room - cs.length)
+      else []
+
+def squeezedPrefix (s : Src) : List Char := squeezedPrefixAux (s.length + 1) s Gen.MAX_PREFIX_SIZE
+
+/-- no ignorable token lies inside the leading literal characters the prefix index looks at -/
+def noBlankInLeadingLiteral (s : Src) : Bool := squeezedPrefix s == parsePrefix s
+
 /-- the (ruledef, rule) pairs in insertion order whose prefix is exactly `p` -/
 def entriesWithPrefix (defs : List Ruledef) (p : List Char) : List (Nat × Nat) :=
   (List.range defs.length).flatMap fun r =>
@@ -235,6 +256,12 @@ def entriesWithPrefix (defs : List Ruledef) (p : List Char) : List (Nat × Nat) 
 /-- `query_prefixed`: every sub-prefix of the instruction's prefix, shortest first -/
 def queryPrefixed (defs : List Ruledef) (p : List Char) : List (Nat × Nat) :=
   (List.range (p.length + 1)).flatMap fun i => entriesWithPrefix defs (p.take i)
+
+/-- every rule of every top-level (non-sub) block, in declaration order -/
+def allRules (defs : List Ruledef) : List (Nat × Nat) :=
+  (List.range defs.length).flatMap fun r =>
+    let rd := defs.getD r default
+    if rd.isSub then [] else (List.range rd.rules.length).map fun i => (r, i)
 
 mutual
 /-- `get_recursive_exact_part_count` -/
@@ -253,18 +280,15 @@ def dedupMatches : List IMatch → List IMatch → List IMatch
 
 def matchFuel (src : List Char) : Nat := 200 + 8 * src.length
 
-/-- `match_instr(opts, defs, src)` -/
-def matchInstr (optMatcher : Bool) (defs : List Ruledef) (src : List Char) : List IMatch :=
+/-- every way the candidate rules match the whole instruction text -/
+def workingOf (defs : List Ruledef) (src : List Char) (cands : List (Nat × Nat)) : Working :=
   let w : MW := ⟨src, src.length, 0⟩
-  let fuel := matchFuel src
-  let working : Working :=
-    if optMatcher then
-      (queryPrefixed defs (parsePrefix src)).flatMap fun (r, i) =>
-        let rule := (defs.getD r default).rules.getD i default
-        matchWithRule defs fuel rule rule.pattern w true (.mk r i [])
-    else
-      (List.range defs.length).flatMap fun r =>
-        if (defs.getD r default).isSub then [] else matchWithRuledef defs fuel r w true
+  cands.flatMap fun (r, i) =>
+    let rule := (defs.getD r default).rules.getD i default
+    matchWithRule defs (matchFuel src) rule rule.pattern w true (.mk r i [])
+
+/-- duplicate removal, then only the matches with the largest count of literal pattern parts -/
+def selectMatches (defs : List Ruledef) (working : Working) : List IMatch :=
   let ms := dedupMatches (working.map (·.1)) []
   match ms with
   | [] => []
@@ -272,5 +296,10 @@ def matchInstr (optMatcher : Bool) (defs : List Ruledef) (src : List Char) : Lis
     let counts := ms.map (exactCountRec defs)
     let mx := counts.foldl max 0
     ms.filter fun m => exactCountRec defs m == mx
+
+/-- `match_instr(opts, defs, src)`: the candidate rules come from the prefix index, or are
+    every rule (`match_with_ruledef` per block) -/
+def matchInstr (optMatcher : Bool) (defs : List Ruledef) (src : List Char) : List IMatch :=
+  selectMatches defs (workingOf defs src (if optMatcher then queryPrefixed defs (parsePrefix src) else allRules defs))
 
 end Casm
